@@ -528,6 +528,12 @@ def twodspectrum_dictionary(name, dtype):
                 if self.current_dtype not in _ptypes:
                     # check the current_type attribute
                     raise Exception("Wrong pathways type")
+
+                if self.current_tag is None:
+                    # an untagged read returns the sum over all pathways of
+                    # the type; storing it back would duplicate them
+                    raise Exception("Storage resolution 'pathways' requires"
+                                    +" a pathway tag")
             
                 try:
                     # get the dictionary of pathways with a give type
